@@ -422,15 +422,8 @@ func desugar(s string) string {
 	i := 0
 	for i < len(s) {
 		c := s[i]
-		if c == '"' {
-			j := i + 1
-			for j < len(s) && s[j] != '"' {
-				if s[j] == '\\' {
-					j++
-				}
-				j++
-			}
-			sb.WriteString(s[i:min(j+1, len(s))])
+		if j, ok := skipLit(s, i); ok {
+			sb.WriteString(s[i : j+1])
 			i = j + 1
 			continue
 		}
@@ -453,18 +446,45 @@ func desugar(s string) string {
 	return desugarFlat(sb.String())
 }
 
+// skipLit: if s[i] starts a string or rune literal, returns the index of its closing quote.
+func skipLit(s string, i int) (int, bool) {
+	q := s[i]
+	if q != '"' && q != '\'' {
+		return i, false
+	}
+	if q == '\'' {
+		// a rune literal is short: 'x', '\n', '\''
+		j := i + 1
+		if j < len(s) && s[j] == '\\' {
+			j++
+		}
+		j++
+		if j < len(s) && s[j] == '\'' {
+			return j, true
+		}
+		return i, false
+	}
+	j := i + 1
+	for j < len(s) && s[j] != '"' {
+		if s[j] == '\\' {
+			j++
+		}
+		j++
+	}
+	if j >= len(s) {
+		j = len(s) - 1
+	}
+	return j, true
+}
+
 func matchClose(s string, i int) int {
 	depth := 0
 	for j := i; j < len(s); j++ {
+		if e, ok := skipLit(s, j); ok {
+			j = e
+			continue
+		}
 		switch s[j] {
-		case '"':
-			j++
-			for j < len(s) && s[j] != '"' {
-				if s[j] == '\\' {
-					j++
-				}
-				j++
-			}
 		case '(', '[', '{':
 			depth++
 		case ')', ']', '}':
@@ -512,15 +532,11 @@ func splitTop(s, sep string) []string {
 	depth := 0
 	last := 0
 	for i := 0; i < len(s); i++ {
+		if e, ok := skipLit(s, i); ok {
+			i = e
+			continue
+		}
 		switch s[i] {
-		case '"':
-			i++
-			for i < len(s) && s[i] != '"' {
-				if s[i] == '\\' {
-					i++
-				}
-				i++
-			}
 		case '(', '[', '{':
 			depth++
 		case ')', ']', '}':
@@ -579,15 +595,11 @@ func desugarFlat(s string) string {
 func indexTop(s, sub string) int {
 	depth := 0
 	for i := 0; i < len(s); i++ {
+		if e, ok := skipLit(s, i); ok {
+			i = e
+			continue
+		}
 		switch s[i] {
-		case '"':
-			i++
-			for i < len(s) && s[i] != '"' {
-				if s[i] == '\\' {
-					i++
-				}
-				i++
-			}
 		case '(', '[', '{':
 			depth++
 		case ')', ']', '}':
@@ -632,7 +644,10 @@ func bits(f float64) uint64 { panic("spec") }
 func isnan(f float64) bool { panic("spec") }
 func feq(a, b float64) bool { panic("spec") }
 func fsame(a, b float64) bool { panic("spec") }
+func atoiOK(s string) bool { panic("spec") }
+func parseFloatOK(s string) bool { panic("spec") }
 func eqv[T any](a, b T) bool { panic("spec") }
+func field[T any](x any, name string) T { panic("spec") }
 func fst2[A, B any](a A, b B) A { panic("spec") }
 func snd2[A, B any](a A, b B) B { panic("spec") }
 `
@@ -798,6 +813,28 @@ func (e *Engine) GenerateOverlay(ps *PkgSpec, pkg *types.Package, fnByKey map[st
 			}
 			us = e.sigForFunc(fn, q)
 			if con.Implements != "" {
+				// parameters take the names used by the type-level contract
+				var tc *Contract
+				for _, c := range ps.Contracts {
+					if c.Kind == "type" && c.Key == con.Implements {
+						tc = c
+					}
+				}
+				if tc != nil {
+					tn := strings.Split(tc.ParamsText, ",")
+					off := 0
+					if fn.Signature.Recv() != nil {
+						off = 1
+					}
+					for i := 0; i < fn.Signature.Params().Len(); i++ {
+						if i+1 < len(tn) {
+							nm := strings.TrimSpace(tn[i+1])
+							old := us.names[off+i]
+							us.names[off+i] = nm
+							us.params[off+i] = nm + strings.TrimPrefix(us.params[off+i], old)
+						}
+					}
+				}
 				us.names = append([]string{"self"}, us.names...)
 				us.params = append([]string{"self " + con.Implements}, us.params...)
 			}
